@@ -64,6 +64,31 @@ def _stored_in(body) -> set[str]:
     return out
 
 
+def _return_chain(body):
+    """the value of a block that consists only of if-arms ending in `return E` and a final `return E` (None otherwise)"""
+    if not body:
+        return None
+    first, rest = body[0], body[1:]
+    if isinstance(first, ast.Return):
+        return copy.deepcopy(first.value) if first.value is not None and not rest else None
+    if isinstance(first, ast.If):
+        b = _return_chain(first.body)
+        if b is None:
+            return None
+        # the else arm: its own chain if it returns on every path, otherwise what follows the if
+        o = _return_chain(first.orelse) if first.orelse else None
+        if first.orelse and o is None:
+            return None
+        if o is None:
+            o = _return_chain(rest)
+        elif rest:
+            return None  # dead code after an if/else that always returns
+        if o is None:
+            return None
+        return ast.IfExp(test=copy.deepcopy(first.test), body=b, orelse=o)
+    return None
+
+
 class Helper:
     def __init__(self, fn, kind: str):
         self.fn = fn
@@ -79,6 +104,11 @@ class Helper:
             if d is not None:
                 self.defaults[x.arg] = d
         self.body = _strip_doc(fn.body)
+        # `if a: return X` / `if b: return Y` / `return Z` (nothing else) is `return X if a else (Y if b else Z)`
+        chain = _return_chain(self.body)
+        if chain is not None and len(self.body) > 1:
+            self.body = [ast.copy_location(ast.Return(value=chain), self.body[0])]
+            ast.fix_missing_locations(self.body[0])
         self.inner_bound: set[str] = set()  # names rebound by functions nested in the helper
         for n in ast.walk(fn):
             if n is not fn and isinstance(n, (ast.ClassDef, ast.Global, ast.Nonlocal)):
